@@ -47,7 +47,7 @@ ASSUMPTIONS = ["RTLIL text equality is the criterion for 'the same hardware' (Am
 REQUIRED = ["constructed", "refusal_judged", "elaborations", "rtlil_identical", "metadata_unchanged", "sim_then_synth"]
 
 KINDS = ["mux", "csrdec", "wbdec", "arb", "sram", "wbbridge", "regbridge", "register", "action", "evmon",
-         "csrevmon", "gpio"]
+         "csrevmon", "gpio", "soc"]
 ELAB_STEP_LIMIT = 2_000_000
 
 
@@ -69,6 +69,23 @@ def gen_case(rng, tier, idx):
                             "access": rng.choice(["w", "w", "w", "r", "rw"]),
                             "place": rng.choice(["implicit", "unaligned", "unaligned"]),
                             "addr_r": rng.random(), "extra": 0, "alignment": None} for _ in range(rng.randint(4, 9))]
+        elif rng.random() < 0.2:
+            # huge, sparsely populated address space: a few registers at block-aligned addresses far apart
+            lay = case["layout"]
+            aw = rng.choice([20, 24, 32, 40, 48])
+            lay.update(aw=aw, dw=rng.choice([8, 32]), al=0, overlaps=rng.choice([0, 0, 1, None]))
+            blocks = [0, 1 << (aw - 1), 1 << (aw - 2), 3 << (aw - 2), (1 << aw) - 16, 1 << (aw // 2)]
+            lay["regs"] = [{"width": rng.choice([1, lay["dw"], 2 * lay["dw"]]), "access": rng.choice(["rw", "rw", "r", "w"]),
+                            "place": "absolute", "addr_abs": rng.choice(blocks) + rng.choice([0, 0, 1, 2, 4]),
+                            "addr_r": 0.0, "extra": 0, "alignment": None} for _ in range(rng.randint(2, 5))]
+    elif kind == "soc":
+        lay = muxwork.gen_layout(rng, tier)
+        lay.update(aw=rng.choice([2, 3, 4]), dw=rng.choice([8, 16]), al=0, overlaps=rng.choice([None, 0, 0, 1]))
+        lay["regs"] = [{"width": rng.choice([1, lay["dw"], 2 * lay["dw"]]), "access": rng.choice(["rw", "rw", "r", "w"]),
+                        "place": rng.choice(["implicit", "implicit", "unaligned"]), "addr_r": rng.random(), "extra": 0,
+                        "alignment": None} for _ in range(rng.randint(1, 4))]
+        case["layout"] = lay
+        case["copies"] = rng.choice([2, 2, 3])
     elif kind == "register":
         case["reg"] = c11mod.gen_case(rng, tier, rng.randrange(1000))
     return case
@@ -111,6 +128,41 @@ def b_mux(case, rng, P):
         finding = "F3"
     dut = csr.Multiplexer(mm, shadow_overlaps=layout["overlaps"])
     return dut, [p.element for p, _n, _r in res], lambda: map_meta(dut.bus.memory_map), finding
+
+
+def b_soc(case, rng, P):
+    """Several peripherals of identical layout (separate Multiplexer instances) behind one csr.Decoder: instances must
+    not share hardware through anything kept at class or module level."""
+    layout = case["layout"]
+    dec = csr.Decoder(addr_width=layout["aw"] + 3, data_width=layout["dw"])
+    muxes, elements = [], []
+    for k in range(case["copies"]):
+        mm, _sk = muxwork.build_map(layout)
+        res = list(mm.resources())
+        for acc in ("readable", "writable"):
+            if f3_unsatisfiable([(s, e) for p, _n, (s, e) in res if getattr(p.element.access, acc)()], layout["overlaps"]):
+                layout = dict(layout, overlaps=None)
+        mux = csr.Multiplexer(mm, shadow_overlaps=layout["overlaps"])
+        dec.add(mux.bus, name=f"periph{k}")
+        muxes.append(mux)
+        elements += [p.element for p, _n, _r in res]
+    P.update(aw=layout["aw"], dw=layout["dw"], overlaps=layout["overlaps"], copies=case["copies"],
+             regs=[(r["width"], r["access"], r["place"]) for r in layout["regs"]])
+
+    class Soc(wiring.Component):
+        def __init__(self):
+            super().__init__({})
+            self.bus = dec.bus
+
+        def elaborate(self, platform):
+            from amaranth import Module
+            m = Module()
+            m.submodules.dec = dec
+            for k, mux in enumerate(muxes):
+                m.submodules[f"mux{k}"] = mux
+            return m
+
+    return Soc(), [dec.bus] + elements, lambda: map_meta(dec.bus.memory_map), None
 
 
 def b_csrdec(case, rng, P):
@@ -316,7 +368,7 @@ def b_gpio(case, rng, P):
     return dut, [], lambda: map_meta(dut.bus.memory_map), None
 
 
-BUILDERS = {"mux": b_mux, "csrdec": b_csrdec, "wbdec": b_wbdec, "arb": b_arb, "sram": b_sram, "wbbridge": b_wbbridge,
+BUILDERS = {"soc": b_soc, "mux": b_mux, "csrdec": b_csrdec, "wbdec": b_wbdec, "arb": b_arb, "sram": b_sram, "wbbridge": b_wbbridge,
             "regbridge": b_regbridge, "register": b_register, "action": b_action, "evmon": b_evmon,
             "csrevmon": b_csrevmon, "gpio": b_gpio}
 
